@@ -2,7 +2,7 @@
 from . import sheetprop as P
 from ..gens import sheet as S
 
-FEATURES = "amp,leadcomb,attr,pseudo2".split(',')
+FEATURES = "amp,leadcomb,attr,pseudo2,pseudofn".split(',')
 RULE = 'see harness/props/sheetprop.py: generated stylesheets with features %s; model compared byte-for-byte, reference semantics compared on the flat items read back from the output CSS by an independent reader' % FEATURES
 ASSUMPTIONS = ['the LALR parser builds the node tree that harness/gens/sheet.py:tree() predicts (checked on every case through the byte-exact output comparison); independently of that prediction, the whole pipeline from the source TEXT (coq/Model/Lex.v + Parse.v + Eval.v: compile_text) is compared byte for byte with the real compiler on every case (abstentions counted in distribution.text_pipeline)',
                'harness/readcss.py reads the produced CSS back correctly']
